@@ -3,6 +3,7 @@
 package main
 
 import (
+	"bytes"
 	"fmt"
 	"math/big"
 
@@ -22,7 +23,12 @@ func genC12(c *Ctx) {
 	}{{"bls", crypto.BLSBLS12381}, {"p256", crypto.ECDSAP256}, {"k256", crypto.ECDSASecp256k1}}
 	gen := func(class, name string, a crypto.SigningAlgorithm, seed []byte) {
 		ans := guard(func() string {
-			sk, err := crypto.GeneratePrivateKey(a, seed)
+			sbuf := cloneOrNil(seed)
+			sk, err := crypto.GeneratePrivateKey(a, sbuf)
+			if !bytes.Equal(sbuf, seed) {
+				return "seed-modified"
+			}
+			wipe(sbuf) // the seed slice is the caller's
 			if err != nil {
 				if crypto.IsInvalidInputsError(err) {
 					return "err"
